@@ -50,7 +50,7 @@ BoundarySets(f) ==
            r1 == R(e - BN, BN, G)
            same == R(e - 2 * BN - 3, BN, G)        \* below record 1, same bank
            next == R(BB + 16, 3, G)                 \* next bank
-           low == R(BB - 32768 + 7, 3, G)           \* lower bank (for units = bytes / 2 still below)
+           low == R(IF BB >= 32768 THEN BB - 32768 + 7 ELSE 7, 3, G)     \* a lower bank (lower part of the bank for small BB)
        IN {<<r1, same>>, <<r1, next>>, <<r1, low>>, <<r1, next, low>>, <<r1, low, next>>}
        : BB \in {B \div x : x \in {1, G}}} : d \in Deltas} : B \in Bounds, G \in GG}
 BoundaryOpts(f) ==
@@ -86,7 +86,7 @@ CaseSpace ==
                      : rs \in BoundarySets(f)} : f \in Fmts}
 
 \* cases with a definite outcome whose written addresses do not wrap below 0
-Admissible(cc) == Definite(cc) /\ TheFmt(cc) \in Fmts /\ ~AutoFails(cc, Devs) /\ \A kk \in Live(cc) : KeyLo(cc, kk) >= 0 /\ KeyHi(cc, kk) < BigAddr
+Admissible(cc) == (\A kk \in 1..Len(cc.recs) : cc.recs[kk].start >= 0) /\ Definite(cc) /\ TheFmt(cc) \in Fmts /\ ~AutoFails(cc, Devs) /\ \A kk \in Live(cc) : KeyLo(cc, kk) >= 0 /\ KeyHi(cc, kk) < BigAddr
 
 NoG == [el |-> 0]
 Init == /\ c \in {cc \in CaseSpace : Admissible(cc)}
